@@ -187,3 +187,30 @@ Theorem C12_shared_constant_refuted :
     lookup_wires (intern (intern [] c1) c2) c2 = 2 ^ 64 - 2 ^ 31.
 Proof. exact shared_constant_refuted. Qed.
 Print Assumptions C12_shared_constant_refuted.
+
+(* ---- the same source expression folded at several types in one compilation ----
+   A cast T(A) copies the constant and shares its mpa.Int: for every value A >= 0
+   and any two types, T1(A) and T2(A) carry the SAME mpa.Int. *)
+Theorem C12_casts_share_the_mint : forall k1 n1 k2 n2 a, 0 <= a ->
+  exists t1 t2 m, operand k1 n1 a = Ok (CI t1 m) /\ operand k2 n2 a = Ok (CI t2 m).
+Proof. exact casts_share_the_mint. Qed.
+Print Assumptions C12_casts_share_the_mint.
+
+(* Binary.Eval is a function of the operator and the two TYPED operands, and NOT of
+   the operand mpa.Int objects: no memo keyed by (operator, operand objects) agrees
+   with the folder (witness a * b with A = B = 100000: 1410065408 at uint32,
+   10000000000 at uint64, FoldClassProof.mul_at_two_types). *)
+Theorem C12_fold_is_a_function_of_typed_operands :
+  ~ exists memo : binop -> mint -> mint -> res cval,
+      forall op t1 t2 m1 m2, evalConst op (CI t1 m1) (CI t2 m2) = memo op m1 m2.
+Proof. exact fold_needs_the_operand_types. Qed.
+Print Assumptions C12_fold_is_a_function_of_typed_operands.
+
+(* In the model of a program that calls one helper several times, for every list of
+   calls, table and names: the folded values depend on each call's own typed
+   operands only (no state is carried from one fold of the node to the next). *)
+Theorem C12_calls_fold_independently : forall calls tbl names t n ps,
+  reg_calls calls tbl names = Ok (t, n, ps) ->
+  res_map (fun c => do v <- eval (cex c); consumer_prep (item_of_call c) v) calls = Ok ps.
+Proof. exact calls_fold_independently. Qed.
+Print Assumptions C12_calls_fold_independently.
